@@ -1,3 +1,4 @@
 //! vp_graph — C09 (graph traversal) and C16 (stock nodes).
 pub mod c09;
 pub mod c16;
+pub mod fuzzdec;
